@@ -264,6 +264,63 @@ theorem rows_known_entries (kp : List Position) (kq : List (Position × Code)) (
   obtain ⟨r, hr, her⟩ := he
   exact row_known_entries kp kq r (List.all_eq_true.mp h r hr) e her
 
+/-! ### consumer sites of the shared dispatchers -/
+
+theorem defaultRaise_raises (pos : Position) : (defaultRaise pos).raises = true := by
+  cases pos <;> rfl
+
+theorem siteRow_ok_entries (T : Tables Code) (r : SiteRow) (h : r.ok T = true) :
+    ∀ e ∈ r.entries, dispatch T e.pos e.code = e.disp ∨ e.disp.raises = true := by
+  intro e he
+  simp only [SiteRow.ok, Bool.and_eq_true, decide_eq_true_eq, List.all_eq_true,
+    Bool.or_eq_true] at h
+  obtain ⟨h2, h3⟩ := h
+  simp only [SiteRow.entries, List.mem_map] at he
+  obtain ⟨d, hd, rfl⟩ := he
+  rcases h3 d hd with h4 | h4
+  · left
+    simp only [dispatch, h2]
+    exact h4
+  · exact Or.inr h4
+
+theorem siteRows_ok_entries (T : Tables Code) (rows : List SiteRow)
+    (h : rows.all (SiteRow.ok T) = true) :
+    ∀ e ∈ siteEntriesOf rows, dispatch T e.pos e.code = e.disp ∨ e.disp.raises = true := by
+  intro e he
+  simp only [siteEntriesOf, List.mem_flatMap] at he
+  obtain ⟨r, hr, her⟩ := he
+  exact siteRow_ok_entries T r (List.all_eq_true.mp h r hr) e her
+
+theorem siteRow_known_entries (known : List (Nat × Code)) (r : SiteRow)
+    (h : r.ignoredKnown known = true) :
+    ∀ e ∈ r.entries, e.disp = .ignored → (e.site, e.code) ∈ known := by
+  intro e he hd
+  simp only [SiteRow.ignoredKnown, List.all_eq_true, Bool.or_eq_true, decide_eq_true_eq,
+    List.contains_eq_mem] at h
+  simp only [SiteRow.entries, List.mem_map] at he
+  obtain ⟨d, hdm, rfl⟩ := he
+  rcases h d hdm with h1 | h1
+  · exact absurd hd h1
+  · exact h1
+
+theorem siteRows_known_entries (known : List (Nat × Code)) (rows : List SiteRow)
+    (h : rows.all (SiteRow.ignoredKnown known) = true) :
+    ∀ e ∈ siteEntriesOf rows, e.disp = .ignored → (e.site, e.code) ∈ known := by
+  intro e he
+  simp only [siteEntriesOf, List.mem_flatMap] at he
+  obtain ⟨r, hr, her⟩ := he
+  exact siteRow_known_entries known r (List.all_eq_true.mp h r hr) e her
+
+/-- at a site that follows its dispatcher (or raises), an unrecognised `$name` raises -/
+theorem site_unknown_raises (T : Tables Code) (e : SiteEntry)
+    (h : dispatch T e.pos e.code = e.disp ∨ e.disp.raises = true)
+    (hlazy : e.pos.lazy = false) (hop : isOp e.code = true) (hk : e.code ∉ recognised T e.pos) :
+    e.disp.raises = true := by
+  rcases h with h | h
+  · rw [← h, unknown_raises T e.pos e.code hlazy hop hk]
+    exact defaultRaise_raises e.pos
+  · exact h
+
 /-! ### `not_implemented.py` -/
 
 theorem lookup_set (fs : Features) (f g : String) (b : Bool) :
